@@ -227,17 +227,17 @@ def plain_text(items: List[Any]) -> str:
 #   "accept" / "reject" at the SYNTAX level (semantic actions are not run), None = tie only
 # --------------------------------------------------------------------------------------
 
-def catalogue(known_keys: Sequence[str] = ()) -> List[Tuple[str, str, Optional[str]]]:
-    """known_keys: keys of known_findings.jsonl entries of the property.  The comment-at-eof case
-    (corpus/C08_lr/comment_at_eof.json, props C08_lr_comment_at_eof_refuted) is reported against
-    the expectation `accept` once the finding is listed (then it prints KNOWN-FINDING); until
-    the registry lists it, it is compared with the model only."""
+def catalogue() -> List[Tuple[str, str, Optional[str]]]:
     C: List[Tuple[str, str, Optional[str]]] = []
     C.append(("empty file", "", "accept"))
     C.append(("only newlines", "\n\n\n", "accept"))
     C.append(("only comments", "// a\n// b\n", "accept"))
-    C.append(("comment without final newline [comment-at-eof]", "proto a\nmessage M {} // tail",
-              "accept" if "comment-at-eof" in known_keys else None))
+    # regression of the fixed finding comment-at-eof (/repo ca58921, corpus/C08_lr/comment_at_eof.json):
+    # Parser.parse_string terminates the last line, so a comment there needs no final newline
+    C.append(("comment on the last line without final newline", "proto a\nmessage M {} // tail", "accept"))
+    C.append(("comment-only last line without final newline", "proto a\n// tail", "accept"))
+    C.append(("comment after the only statement, no final newline", "proto a // c", "accept"))
+    C.append(("blanks after the last newline", "proto a\n  \t", "accept"))
     C.append(("no final newline", "proto a", "accept"))
     C.append(("missing proto", "message M {}\n", "accept"))
     stmts = ["proto a", "import \"x.bitproto\"", "import y \"x.bitproto\"", "option max_bytes = 3", "type T = uint3",
